@@ -200,7 +200,14 @@ def gen_case(rng, focus=()):
     rename = False
     if p("names", 0.12):
         if rng.random() < 0.5 and not paired:
-            argv += ["--rename", rng.choice(["{id} {adapter_name} {rc}", "{id}_{cut_prefix} {comment}", "{header} m={match_sequence}", "{id} s={cut_suffix}"])]
+            argv += ["--rename", rng.choice(["{id} {adapter_name} {rc}", "{id}_{cut_prefix} {comment}", "{header} m={match_sequence}", "{id} s={cut_suffix}",
+                                             "{comment}", "x {comment} {adapter_name}", "{id} {rn}", "{header}", "{id} {r1.comment}"])]
+            rename = True
+        elif rng.random() < 0.6 and paired:
+            # PairedEndRenamer: own fields, {rn}, fields of the other mate ({r1.x}/{r2.x}); some templates make the ids differ
+            argv += ["--rename", rng.choice(["{id} {adapter_name}", "{id}/{rn} {comment}", "{id} {r1.adapter_name}+{r2.adapter_name}",
+                                             "{id} {r1.cut_prefix}{r2.cut_suffix} {rn}", "{header} m={match_sequence}", "{id}_{r2.match_sequence} {r1.comment}",
+                                             "{rn}{id}", "{id}{comment}", "{id} {rc}", "{comment}", "{id} {r1.id}", "{header}"])]
             rename = True
         else:
             argv += rng.choice([["-x", "p_{name}_"], ["-y", "_s"], ["-x", "P", "-y", "_{name}"]])
@@ -294,6 +301,7 @@ def inputs_of(case):
 
 
 EXC_MAP = {"AttributeError": "attribute", "AssertionError": "assertion", "KeyError": "key", "ValueError": "value",
+           "InvalidTemplate": "template",
            "TypeError": "type", "IndexError": "index"}
 
 
